@@ -568,6 +568,10 @@ SNIPPETS: list[str] = [
     "while x:\n    y = 1\nelse:\n    y = 's' + 1\nfor i in x:\n    pass\nelse:\n    z: int = 's'\n",
     # found by the fragment model: `__x` keyword-only / star parameters and positional-only-ness
     "def f(*, __x=1): pass\nf(__x=2)\ndef g(*a, __y): pass\ng(__y=1)\ndef h(__p, q): pass\nh(__p=1, q=2)\nclass A:\n    def m(self, *, __k): pass\nA().m(__k=1)\n",
+    # wave 3: diagnostics that use the positions on which the Coq model shows the converters differ (parenthesised operand, @(dec))
+    "reveal_type((1) + 2)\nreveal_type((1) +\n  (2))\n",
+    "def dec(f): return f\n@(dec)\ndef f(): pass\n@(dec)\ndef f(): pass\n",
+    "reveal_type(a and b and c)\nx = [1, (2) * 's']\ndel (a), b\n",
 ]
 
 
